@@ -99,13 +99,13 @@ Qed.
 
 (* ---------------- the full-function models: every output cell is the NaN-skipping mean, over the reduced
    dimensions, of weight * per-case sum ---------------- *)
-Lemma firm_m_value c fcst obs alpha ths wts d rd pd w assign r e :
-  firm_m c fcst obs alpha ths wts d rd pd w assign = Ok r ->
+Lemma firm_m_value c fcst obs alpha ths wts dopt rd pd w assign r e :
+  firm_m c fcst obs alpha ths wts dopt rd pd w assign = Ok r ->
   exists R, gather (ldims fcst) (ldims obs) None rd pd DNone = Ok R /\
-    let s := apply_weights w (firm_pointwise c fcst obs alpha ths wts d assign) in
+    let s := apply_weights w (firm_pointwise c fcst obs alpha ths wts (firm_disc dopt) assign) in
     lget r e = nanmean (map (lget s) (envs (lsize s) (dinter (ldims s) R) e)).
 Proof.
-  unfold firm_m, guard, of_guard12. destruct (gen_guard_firm alpha d assign);
+  unfold firm_m, guard, of_guard12. cbv zeta. destruct (gen_guard_firm alpha (firm_disc dopt) assign);
   repeat match goal with |- context [if ?b then Err ValueError else Ok tt] => destruct b end;
   simpl; try (intro H; discriminate H).
   destruct (gather _ _ _ _ _ _) as [R|]; simpl; intro H; inversion H. exists R. split; auto.
